@@ -280,6 +280,17 @@ TouchSetsRef ==
             \A j \in DOMAIN Flat(bk') :
                LET e == Flat(bk')[j] IN (e.k = last'[2] /\ ~Has(Flat(bk), e)) => e.ref ]_cvars
 
+(* ... and nothing else does: the bit of an entry that stays in place flips from clear to set only when
+   that entry was the one served by a hit or (re)written by Insert.  A lookup that MISSES - another
+   generation of the key is cached - must not make the cached entry look recently referenced: the next
+   sweep would spare it and evict an entry that really was.                                          *)
+RefOnlyByTouch ==
+  [][ \A j \in DOMAIN Flat(bk') :
+        LET e == Flat(bk')[j] IN
+          (e.ref /\ \E i \in DOMAIN Flat(bk) : LET o == Flat(bk)[i] IN o.k = e.k /\ o.g = e.g /\ o.sz = e.sz /\ ~o.ref) =>
+             \/ (last'[1] = "get" /\ last'[5] = "hit" /\ e.k = last'[2] /\ e.g = last'[6])
+             \/ (last'[1] = "insert" /\ e.k = last'[2]) ]_cvars
+
 (* ---- statements about the design that the property does not demand (model only) ---- *)
 (* The sweep stops at the first moment usage <= low: it never evicts more than needed. *)
 EvictNoOvershoot ==
